@@ -114,6 +114,39 @@ func allSubsets(r *rand.Rand, emit func(text string, valid bool)) {
 	}
 }
 
+// lookaheadCorners: comments (both kinds, flanked or not, terminated or not, at the end of the
+// input) at every place where the parser looks at runes instead of tokens: parseRegex (after `(`
+// and `,` of a call, `=~`/`!~`, FROM, `,` of sources / fields / dimensions, GROUP BY, the
+// operator of WITH MEASUREMENT / WITH KEY), the `.` of parseSegmentedIdents, `::`, `:MEASUREMENT`,
+// and the raw Scan for the comma of parseDimensions. C16 finding comment-before-regex-lookahead.
+var lookaheadCorners = []string{
+	"SELECT a, -- c\n b FROM m", "SELECT a,/*c*/b FROM m", "SELECT a, -- c\r\n b FROM m", "SELECT /*c*/ /f/ FROM m", "SELECT -- c\n/f/ FROM m", "SELECT a, /*c*/ /f/ FROM m",
+	"SELECT a FROM -- c\n m", "SELECT a FROM /*c*/ /m/", "SELECT a FROM -- c\n /m/", "SELECT a FROM -- c\r/m/", "SELECT a FROM/*c*//m/", "SELECT a FROM/*c*/m",
+	"SELECT a FROM m, /*c*/ /n/", "SELECT a FROM m, -- c\n n", "SELECT a FROM m,/*c*/n", "SELECT a FROM m,/*c*//n/", "SELECT a FROM /*c*/ (SELECT b FROM /*d*/ n)",
+	"SELECT a FROM db./*c*/m", "SELECT a FROM db./*c*//m/", "SELECT a FROM db. /m/", "SELECT a FROM db. m", "SELECT a FROM db./*c*/.m", "SELECT a FROM db.-- c\nm", "SELECT a FROM db.rp./*c*//m/",
+	"SELECT a FROM m GROUP BY /*c*/ /t/", "SELECT a FROM m GROUP BY -- c\n /t/", "SELECT a FROM m GROUP BY /*c*/ t", "SELECT a FROM m GROUP BY/*c*/t", "SELECT a FROM m GROUP BY x, -- c\n /t/",
+	"SELECT a FROM m GROUP BY x,/*c*/y", "SELECT a FROM m GROUP BY x, /*c*/ /t/, -- d\n time(1m)", "SELECT a FROM m GROUP BY /t/ /*c*/, y", "SELECT a FROM m GROUP BY /t/ /*c*/ , y",
+	"SELECT a FROM m GROUP BY /t/ , y", "SELECT a FROM m GROUP BY /t/ -- c\n, y", "SELECT a FROM m GROUP BY x /*c*/, y", "SELECT a FROM m GROUP BY x /*c*/ , y",
+	"SELECT a FROM m WHERE t =~ -- c\n /x/", "SELECT a FROM m WHERE t !~ /*c*/ /x/", "SELECT a FROM m WHERE t !~/*c*//x/", "SELECT a FROM m WHERE t =~ /*c*/ 'x'", "SELECT a FROM m WHERE t =~ /*c*/ /x/ AND u !~ -- d\n /y/",
+	"SELECT f(/*c*/) FROM m", "SELECT f(-- c\n) FROM m", "SELECT f(a, /*c*/ /x/) FROM m", "SELECT f(/*c*/ /x/, -- d\n 1) FROM m", "SELECT f(a, /*c*/ -1) FROM m", "SELECT f(a, -- c\n-1) FROM m", "SELECT f(a, /*c*//*d*/ -- e\n b) FROM m",
+	"SHOW MEASUREMENTS WITH MEASUREMENT = /* c */ cpu", "SHOW MEASUREMENTS WITH MEASUREMENT = -- c\n cpu", "SHOW MEASUREMENTS WITH MEASUREMENT =~ /* c */ /cpu/", "SHOW MEASUREMENTS WITH MEASUREMENT =~ -- c\n /cpu/",
+	"SHOW MEASUREMENTS WITH MEASUREMENT =/*c*/cpu", "SHOW MEASUREMENTS WITH MEASUREMENT =~/*c*//cpu/", "SHOW MEASUREMENTS WITH MEASUREMENT /*c*/ = cpu", "SHOW MEASUREMENTS WITH MEASUREMENT = /*c*/ db.rp.cpu",
+	"SHOW TAG VALUES WITH KEY =~ /* c */ /k/", "SHOW TAG VALUES WITH KEY !~ -- c\n /k/", "SHOW TAG VALUES WITH KEY = /*c*/ k", "SHOW TAG VALUES WITH KEY IN (/*c*/ a, -- d\n b)", "SHOW TAG KEYS WITH KEY =~ /*c*/ /k/",
+	"SHOW TAG KEYS FROM /*c*/ /m/", "SHOW SERIES FROM -- c\n /m/", "SHOW FIELD KEYS FROM /*c*/ m", "SHOW TAG VALUES FROM /*c*/ /m/ WITH KEY = k", "DELETE FROM /*c*/ /m/", "DROP SERIES FROM -- c\n /m/", "DROP MEASUREMENT /*c*/ m",
+	"SELECT a::/*c*/float FROM m", "SELECT a/*c*/::float FROM m", "SELECT a:: -- c\n float FROM m", "SELECT a:: float FROM m", "SELECT *::/*c*/field FROM m",
+	"SELECT a INTO db.rp /*c*/ :MEASUREMENT FROM m", "SELECT a INTO db.rp./*c*/:MEASUREMENT FROM m", "SELECT a INTO db.rp :MEASUREMENT FROM m", "SELECT a INTO /*c*/ n FROM m",
+	// a comment up to the end of the input
+	"SELECT a FROM /*c*/", "SELECT a FROM -- c", "SELECT a, -- c", "SELECT a, /*c*/", "SELECT a FROM m WHERE t =~ /*c*/", "SELECT a FROM m WHERE t =~ -- /x/", "SELECT a FROM m GROUP BY -- c", "SELECT f(a, -- c", "SELECT f(/*c*/",
+	"SHOW MEASUREMENTS WITH MEASUREMENT = -- cpu", "SHOW TAG VALUES WITH KEY =~ /*c*/",
+	// unterminated block comment
+	"SELECT a FROM /* c", "SELECT a, /* c", "SELECT f( /* c", "SELECT f(a, /* c", "SELECT a FROM m WHERE t =~ /* c", "SELECT a FROM m WHERE t =~ /*", "SELECT a FROM m GROUP BY /* c", "SELECT a FROM m, /*",
+	"SHOW MEASUREMENTS WITH MEASUREMENT = /* c", "SHOW MEASUREMENTS WITH MEASUREMENT =~ /* c", "SHOW TAG VALUES WITH KEY =~ /* c", "SELECT a FROM /*c*/ /* d", "SELECT a FROM -- c\n /* d", "SELECT a FROM /*/",
+	// NUL is the reader's eof rune: peekRune consumes it, peekComment does not
+	"SELECT a FROM m WHERE t =~ /*c*/\x00/x/", "SELECT f(\x00/*c*/ /x/) FROM m", "SELECT f( \x00\x00/x/) FROM m", "SELECT f(/*c*/\x00 /x/) FROM m", "SELECT a FROM /*c*/\x00", "SELECT a FROM -\x00- c\n m", "SELECT a FROM /\x00* c */ m",
+	// not comments
+	"SELECT a FROM / * c */ m", "SELECT a FROM - - c\n m", "SELECT f(a, / * c) FROM m", "SELECT a FROM m WHERE t =~ /-- c/", "SELECT a FROM m WHERE t =~ /\\/* c/",
+}
+
 func genStmtCases(r *rand.Rand, n int, emit func(text string, params map[string]interface{}, valid bool)) {
 	none := map[string]interface{}{}
 	for _, s := range stmtCorners {
@@ -121,6 +154,9 @@ func genStmtCases(r *rand.Rand, n int, emit func(text string, params map[string]
 	}
 	for _, s := range pendingCorners {
 		emit(s, none, true)
+	}
+	for _, s := range lookaheadCorners {
+		emit(s, none, false)
 	}
 	for _, s := range deepCorners() {
 		emit(s, none, false)
